@@ -8,6 +8,7 @@ use std::vec::Vec;
 include!(concat!(env!("GEO_VERIF_DIR"), "/contracts/kani/common.rs"));
 include!(concat!(env!("GEO_VERIF_DIR"), "/contracts/kani/spec.rs"));
 include!(concat!(env!("GEO_VERIF_DIR"), "/contracts/kani/geo/c02.rs"));
+include!(concat!(env!("GEO_VERIF_DIR"), "/contracts/kani/geo/c13.rs"));
 
 #[cfg(kani)]
 include!(concat!(env!("GEO_VERIF_DIR"), "/.work/playback/geo.rs"));
